@@ -141,6 +141,7 @@ def _worker(mod_id: str, seed: int, tier: str, w: int, nw: int, deadline: float,
             json.dump(snap, f)
         os.replace(out_path + ".tmp", out_path)
 
+    done: list = []  # indices this process has run so far
     try:
         while i < max_cases and time.time() < deadline:
             case = case_for(mod, seed, tier, i)
@@ -184,7 +185,8 @@ def _worker(mod_id: str, seed: int, tier: str, w: int, nw: int, deadline: float,
             if os.environ.get("VERIF_DEBUG") and res.get("wall", 0) > 3:
                 print(f"[debug] slow case {i}: {res['wall']:.1f}s "
                       f"{res.get('vclass')}", file=sys.stderr)
-            fold(agg, case, res)
+            fold(agg, case, res, preceded_by=done)
+            done.append(i)
             agg["max_index"] = max(agg.get("max_index", -1), i)
             i += nw
         try:
@@ -202,7 +204,7 @@ def new_agg() -> dict:
             "case_digests": {}, "max_index": -1}
 
 
-def fold(agg: dict, case: dict, res: dict) -> None:
+def fold(agg: dict, case: dict, res: dict, preceded_by=None) -> None:
     agg["evaluations"] += 1
     agg["wall_cases"] += res.get("wall", 0.0)
     for k in ("stats", "faults", "probes"):
@@ -228,7 +230,10 @@ def fold(agg: dict, case: dict, res: dict) -> None:
                 "case": case, "vclass": res.get("vclass"),
                 "detail": res.get("detail", "")[:2000],
                 "key": res.get("key", {}),
-                "digest": res.get("digest", "")})
+                "digest": res.get("digest", ""),
+                # the cases this worker process ran before (a violation may
+                # depend on state the code under test kept from them)
+                "preceded_by": list(preceded_by or ())[-300:]})
         agg["stats"]["violating_runs"] = agg["stats"].get("violating_runs",
                                                           0) + 1
     if len(agg["samples"]) < 2 and res.get("sample") is not None:
@@ -336,6 +341,20 @@ def minimise(mod, vio: dict, budget_s: float, case_timeout: float) -> dict:
         return vio
     best = vio
     deadline = time.time() + budget_s
+    # does the case fail on its own, in a process that ran nothing before?
+    # If not (state kept by the code under test across calls, or a native
+    # race) it is kept as found, together with the cases that preceded it
+    alone = isolated_run_one(mod, dict(vio["case"]),
+                             max(3.0, min(case_timeout, 90.0)))
+    if not (not alone.get("ok", True) and not alone.get("harness_error") and
+            alone.get("vclass") == vio["vclass"]):
+        alone = isolated_run_one(mod, dict(vio["case"]),
+                                 max(3.0, min(case_timeout, 90.0)))
+    if not (not alone.get("ok", True) and not alone.get("harness_error") and
+            alone.get("vclass") == vio["vclass"]):
+        vio = dict(vio)
+        vio["needs_prefix"] = bool(vio.get("preceded_by"))
+        return vio
     improved = True
     while improved and time.time() < deadline:
         improved = False
@@ -377,11 +396,17 @@ def write_replay(prop: str, vio: dict, seed: int) -> str:
     name = f"{prop}-seed{seed}-i{vio['case'].get('_index')}-{vio['vclass']}.json"
     path = os.path.join(REPLAYS, name.replace("/", "_"))
     with open(path, "w", encoding="utf-8") as f:
-        json.dump({"property": prop, "verif_seed": seed,
-                   "violation_class": vio["vclass"], "detail": vio["detail"],
-                   "key": vio.get("key", {}),
-                   "event_digest": vio.get("digest", ""),
-                   "case": vio["case"]}, f, indent=1, sort_keys=True)
+        doc = {"property": prop, "verif_seed": seed,
+               "violation_class": vio["vclass"], "detail": vio["detail"],
+               "key": vio.get("key", {}),
+               "event_digest": vio.get("digest", ""),
+               "case": vio["case"]}
+        if vio.get("needs_prefix"):
+            # did not fail on its own: replay runs these cases of the same
+            # (seed, tier) first, in the same process
+            doc["preceded_by"] = {"tier": vio.get("tier", "quick"),
+                                  "indices": vio["preceded_by"]}
+        json.dump(doc, f, indent=1, sort_keys=True)
     return path
 
 
@@ -666,6 +691,7 @@ def finish_check(mod, mod_id: str, prop: str, seed: int, tier: str, nw: int,
         # (sweeps over many changed trees only need the verdict)
         mbudget = float(os.environ["VERIF_MINIMISE_S"])
     for sig, vio in list(fresh.items())[:5]:
+        vio["tier"] = tier
         small = minimise(mod, vio, mbudget / max(1, min(5, len(fresh))),
                          b["case_timeout"])
         if os.environ.get("VERIF_DEBUG"):
@@ -755,7 +781,18 @@ def cmd_replay(path: str) -> int:
     mod = load_prop(prop)
     if hasattr(mod, "setup"):
         mod.setup("quick", build=True)
-    res = run_one(mod, rep["case"], mod.budget("thorough")["case_timeout"])
+    timeout = mod.budget("thorough")["case_timeout"]
+    pre = rep.get("preceded_by") or {}
+    for i in pre.get("indices", ()):
+        run_one(mod, case_for(mod, rep["verif_seed"], pre.get("tier", "quick"),
+                              i), timeout)
+    res = run_one(mod, rep["case"], timeout)
+    for _ in range(2):
+        # components the simulator does not control (native threads, tf.data)
+        # may need more than one attempt
+        if not res.get("ok", True) or res.get("harness_error"):
+            break
+        res = run_one(mod, rep["case"], timeout)
     if (rep["violation_class"] == "hang_or_blowup_observed_by_watchdog" and
             str(res.get("harness_error", "")).startswith("case wall timeout")):
         print(f"VIOLATION property={prop} replay={path}")
